@@ -301,6 +301,14 @@ func (c *converter) trackAddedIngress() {
 		if port > 0 {
 			ctx = convtypes.ResourceHATCPService
 		}
+		if port == 0 {
+			for _, tls := range ing.Spec.TLS {
+				for _, hostname := range tls.Hosts {
+					// a tls entry changes a host, and its backends, declared elsewhere
+					c.tracker.TrackNames(convtypes.ResourceIngress, name, ctx, hostname)
+				}
+			}
+		}
 		for _, rule := range ing.Spec.Rules {
 			c.tracker.TrackNames(convtypes.ResourceIngress, name, ctx, normalizeHostname(rule.Host, port))
 			if rule.HTTP != nil {
